@@ -119,6 +119,12 @@ def gen_case(seed, tier='quick'):
                                  stale=rng.random() < 0.3)
     order = world['order']
     inputs = [a for a in order if world['level'][a] == 0]
+    # cells that formulas refer to but that are stored nowhere (yet): a
+    # value set there creates the cell after the formulas were compiled
+    blanks = sorted({d for ds in world['deps'].values() for d in ds
+                     if d not in world['cells']})
+    if blanks and not world.get('xlsx') and rng.random() < 0.5:
+        inputs = inputs + blanks
     formulas = [a for a in order if world['level'][a] > 0]
     names_of = {}
     for n, a in world['names'].items():
@@ -188,6 +194,16 @@ def gen_case(seed, tier='quick'):
         if rng.random() < 0.7:
             ops.append(restore(ops[0]['path']))
         ops.append({'op': 'build_code'})
+    if blanks and not world.get('xlsx') and rng.random() < 0.3:
+        # a cell comes into being after the formulas reading it were
+        # compiled; the file is written afterwards
+        p0 = persist()
+        p0.pop('fault', None)
+        ops += [{'op': 'eval_all'},
+                {'op': 'set', 'target': rng.choice(blanks),
+                 'value': worlds.enc(c04.new_value(rng))},
+                p0, dict(restore(p0['path']), fault=None)]
+        ops[-1].pop('fault', None)
     digit_inputs = [a for a in inputs
                     if world['cells'].get(a) in (1, 2, 3, 7)
                     and not isinstance(world['cells'].get(a), bool)]
